@@ -23,7 +23,7 @@ PROPS["C17"] = dict(
                  "asan stage: every case ends with __lsan_do_recoverable_leak_check(); a leak is a failure of that case"],
     min_nontrivial=dict(quick=8000, thorough=200000),
     stages=[dict(name="plain", target="c17", flavour="plain",
-                 quick=dict(cases=2500, maxsize=90), thorough=dict(cases=60000, maxsize=100)),
+                 quick=dict(cases=6000, maxsize=90), thorough=dict(cases=60000, maxsize=100)),
             dict(name="asan", target="c17", flavour="asan", leaks=True,
                  quick=dict(cases=150, maxsize=80, shards=8), thorough=dict(cases=4000, maxsize=100))],
 )
